@@ -220,12 +220,31 @@ def pkw():
 WORKER_CHOICES = (2, 3, 1, 4, 6)
 
 
+VIA_ENV = [None]    # worker count handed over as parallel=None + SLURM_NPROCS=<n> (how a batch job gets it)
+
+
 def draw_workers(ch, parallel_only=False):
+    import os
     opts = tuple(w for w in WORKER_CHOICES if not (parallel_only and w == 1))
-    return opts[ch.draw(len(opts), kind="workers")]
+    w = opts[ch.draw(len(opts), kind="workers")]
+    if ch.draw(16, kind="many_workers") == 15:
+        w = (9, 16)[ch.draw(2, kind="many_workers_n")]      # more workers than most item sets have items
+    VIA_ENV[0] = None
+    os.environ.pop("SLURM_NPROCS", None)
+    if ch.draw(10, kind="workers_via_env") == 9:
+        VIA_ENV[0] = w
+        os.environ["SLURM_NPROCS"] = str(w)     # removed again by the engine when the run ends
+    return w
+
+
+def parg(w):
+    """The `parallel=` argument for worker count w: None when this run hands the count over through the environment."""
+    return None if (VIA_ENV[0] is not None and w == VIA_ENV[0]) else w
 
 
 def sim_summary(sim, res):
+    if VIA_ENV[0] is not None:
+        res.setdefault("extra", {})["workers_via_SLURM_NPROCS"] = 1
     res["digest"] = sim.digest()
     res["steps"] = res.get("steps", 0) + sim.step
     res["vtime"] = res.get("vtime", 0.0) + sim.now
